@@ -1,7 +1,7 @@
 CONSTANTS
   MaxDepth = 2
-  Shapes <- ShapesThorough
-  FullMaskSize = 6
+  Shapes <- ShapesQuick
+  FullMaskSize = 5
 SPECIFICATION Spec
 CHECK_DEADLOCK FALSE
 INVARIANT TypeOK
